@@ -7,9 +7,12 @@ Tie: hand models Model/PngCrc.lean, Model/ZxTile.lean, Model/PngScan.lean + corr
 file) against skoolkit.pngwriter / image / graphics (scanline bytes before zlib, CRCs vs
 zlib.crc32, whole files).  E2E: ImageWriter.write_image and sna2img.main output decoded by the
 independent decoder harness/indep/pngdec.py and compared pixel by pixel with the Spectrum display
-rules of harness/indep/zxrender.py."""
+rules of harness/indep/zxrender.py; the same for the image macros expanded by a real HtmlWriter (#COPY,
+#PLOT, #OVER, #UDGS, #FRAMES), whose tile-level effect is stated here from skool-macros.rst."""
 import io
 import os
+import re
+import traceback
 import zlib
 
 from framework import fresh_import
@@ -27,13 +30,19 @@ def rand_byte(rng):
 
 
 def rand_tile_rows(rng):
-    kind = rng.randrange(7)
+    kind = rng.randrange(8)
     if kind == 0:
         return [0] * 8
     if kind == 1:
         return [255] * 8
     if kind == 2:
         return [rng.randrange(256)] * 8
+    if kind == 3:
+        # sparse: ink (or paper) in a single pixel row / a single pixel only, so that a colour or a transparent bit
+        # can be contributed by exactly one row or column of the tile
+        rows = [rng.choice((0, 0, 255))] * 8
+        rows[rng.choice((0, 7, 7, rng.randrange(8)))] ^= rng.choice((255, 1, 128, 1 << rng.randrange(8)))
+        return rows
     return [rand_byte(rng) for _ in range(8)]
 
 
@@ -273,6 +282,8 @@ def build_real(writer, masks, graphics, method, tiles, scale, mask_type, crop, a
         data = getattr(writer, name)(frame, masks[mask_type], bit_depth)
     except KeyError:
         return 'err keyError'
+    except Exception as e:
+        return 'err ' + type(e).__name__[:1].lower() + type(e).__name__[1:]
     return ok(zlib.decompress(bytes(data)))
 
 
@@ -350,7 +361,9 @@ def corr_build(chk, co, image, graphics, pngwriter):
 def corr_geom_flash(chk, co, image, graphics):
     rng = chk.rng
     for n in range(chk.scale(500, 6000)):
-        cols, rows = rng.choice((1, 2, 3, 4)), rng.choice((1, 2, 3))
+        cols, rows = rng.choice((1, 2, 3, 4, 9)), rng.choice((1, 2, 3, 8))
+        if cols * rows > 30:
+            rows = 1
         mask_type = rng.randrange(3)
         tiles = rand_tiles(rng, cols, rows, mask_type and rng.randrange(4) > 0, flashy=True)
         scale = rng.choice((1, 2, 2, 3, 4, 8))
@@ -382,7 +395,7 @@ def corr_imgdata(chk, co, image, graphics):
         cols, rows = rng.choice((1, 1, 2, 3, 4)), rng.choice((1, 1, 2, 3))
         mask_type = rng.randrange(3)
         flashy = rng.randrange(2) == 0
-        tiles = rand_tiles(rng, cols, rows, mask_type and rng.randrange(4) > 0, flashy)
+        tiles = rand_tiles(rng, cols, rows, rng.randrange(4) > 0 if mask_type else rng.randrange(4) == 0, flashy)
         scale = rng.choice((1, 1, 2, 2, 3, 4, 5))
         crop = rand_crop(rng, scale, cols, rows, far_origin=flashy and rng.randrange(3) == 0)
         iw, frame, palette, attr_map, has_trans, bit_depth, psize = writer_view(image, graphics, tiles, scale, mask_type, crop)
@@ -396,6 +409,8 @@ def corr_imgdata(chk, co, image, graphics):
             impl = 'ok ' + nums(zlib.decompress(bytes(f1))) + ' | ' + ('none' if f2 is None else nums(zlib.decompress(bytes(f2))))
         except KeyError:
             impl = 'err keyError'
+        except Exception as e:          # a crash of the real code is a difference from the model, not a crash of the check
+            impl = 'err ' + type(e).__name__[:1].lower() + type(e).__name__[1:]
         am = ' '.join(f'{a} {p} {i}' for a, (p, i) in sorted(attr_map.items()))
         fl = '0' if fr is None else f'1 {fr[0]} {fr[1]} {fr[2]} {fr[3]}'
         op = (f'imgdata {scale} {crop[0]} {crop[1]} {o(crop[2])} {o(crop[3])} {mask_type} {int(bool(frame.has_masks))} {psize} '
@@ -476,26 +491,25 @@ def expected_single(spec, options):
     return rect, zxrender.to_rgba(s1, tindex, a, anyt), zxrender.to_rgba(s2, tindex, a, anyt), s1 != s2
 
 
-def check_single(image, graphics, spec, options):
-    """[(key, description)] for one single-frame image written by ImageWriter.write_image."""
-    rect, e1, e2, flashes = expected_single(spec, options)
+def single_class(spec):
+    rect = zxrender.crop_rect(spec['tiles'], spec['scale'], *spec['crop'])
     cls = f"{'cropped' if rect != (0, 0, 8 * spec['scale'] * len(spec['tiles'][0]), 8 * spec['scale'] * len(spec['tiles'])) else 'full'}"
-    cls += '-masked' if spec['mask'] and any(t[2] for row in spec['tiles'] for t in row) else '-plain'
+    return cls + ('-masked' if spec['mask'] and any(t[2] for row in spec['tiles'] for t in row) else '-plain')
+
+
+def verify_single(data, spec, options, expected=None):
+    """[(key, description)] for the bytes of a single-frame image against the display rules."""
+    rect, e1, e2, flashes = expected or expected_single(spec, options)
+    cls = single_class(spec)
     anim = options.get('PNGEnableAnimation', 1)
-    try:
-        data, seen, frames, iw = capture_write(image, graphics, [spec], options)
-    except Exception as e:
-        if isinstance(e, (ValueError, KeyError)) and anim and flashes and (rect[2] < rect[0] or rect[3] < rect[1]):
-            return [(KEY_F6, f'write_image raises {type(e).__name__} for a flashing image cropped at ({rect[0]},{rect[1]}) to {rect[2]}x{rect[3]}')], None
-        return [(f'write-image-raises-{type(e).__name__}-{cls}', f'write_image raises {type(e).__name__}: {e}')], None
     try:
         img = pngdec.decode(data)
     except pngdec.PngError as e:
-        return [(f'invalid-png-{e.kind}', f'file is not a valid PNG/APNG: {e}')], None
+        return [(f'invalid-png-{e.kind}', f'file is not a valid PNG/APNG: {e}')]
     cls = f"bd{img['bit_depth']}-{cls}"
     fails = []
     if (img['width'], img['height']) != (rect[2], rect[3]):
-        return [(f'size-{cls}', f"image is {img['width']}x{img['height']}, crop rectangle is {rect[2]}x{rect[3]}")], None
+        return [(f'size-{cls}', f"image is {img['width']}x{img['height']}, crop rectangle is {rect[2]}x{rect[3]}")]
     comps = pngdec.composite(img)
     if comps[0] != e1:
         fails.append((f'pixels-{cls}', 'frame 1: ' + first_diff(comps[0], e1)))
@@ -507,14 +521,32 @@ def check_single(image, graphics, spec, options):
     elif len(comps) > 1:
         if len(comps) > 2 or comps[1] != (e2 if anim else e1):
             fails.append((f'unexpected-frames-{cls}', f'{len(comps)} frames written, animation {"on" if anim else "off"}'))
+    return fails
+
+
+def check_single(image, graphics, spec, options):
+    """[(key, description)] for one single-frame image written by ImageWriter.write_image."""
+    expected = rect, e1, e2, flashes = expected_single(spec, options)
+    cls = single_class(spec)
+    anim = options.get('PNGEnableAnimation', 1)
+    try:
+        data, seen, frames, iw = capture_write(image, graphics, [spec], options)
+    except Exception as e:
+        if isinstance(e, (ValueError, KeyError)) and anim and flashes and (rect[2] < rect[0] or rect[3] < rect[1]):
+            return [(KEY_F6, f'write_image raises {type(e).__name__} for a flashing image cropped at ({rect[0]},{rect[1]}) to {rect[2]}x{rect[3]}')], None
+        return [(f'write-image-raises-{type(e).__name__}-{cls}', f'write_image raises {type(e).__name__}: {e}')], None
+    fails = verify_single(data, spec, options, expected)
+    if fails and fails[0][0].startswith(('invalid-png', 'size-')):
+        return fails, None
     return fails, (spec, options, data, seen, frames, iw)
 
 
 def rand_single(rng, flashy=False, far=False):
     cols, rows = rng.choice((1, 1, 2, 3, 4)), rng.choice((1, 1, 2, 3))
     mask_type = rng.randrange(3)
-    tiles = rand_tiles(rng, cols, rows, mask_type and rng.randrange(5) > 0, flashy)
-    scale = rng.choice((1, 1, 2, 2, 3, 4, 5, 8))
+    # mask data may be present with mask type 0 too (it must then be ignored)
+    tiles = rand_tiles(rng, cols, rows, rng.randrange(5) > 0 if mask_type else rng.randrange(3) == 0, flashy)
+    scale = rng.choice((1, 1, 2, 2, 3, 4, rng.choice((5, 6, 7)), 8))
     spec = {'tiles': tiles, 'scale': scale, 'crop': rand_crop(rng, scale, cols, rows, far), 'mask': mask_type,
             'tindex': rng.choice((0, 0, 1, 8, rng.randrange(16))), 'alpha': rng.choice((-1, -1, 0, 128, 255, rng.randrange(256)))}
     options = {'PNGAlpha': rng.choice((255, 255, 0, 100)), 'PNGEnableAnimation': int(rng.randrange(4) > 0 or flashy)}
@@ -539,18 +571,13 @@ def e2e_single(chk, image, graphics):
     return files
 
 
-def check_multi(image, graphics, specs, options):
-    """Multi-frame APNG: every frame by the display rules, common palette / transparency."""
-    try:
-        data, seen, frames, iw = capture_write(image, graphics, specs, options)
-    except Exception as e:
-        return [(f'write-image-raises-{type(e).__name__}-multi', f'write_image raises {type(e).__name__}: {e}')], None
+def verify_multi(data, specs, options):
     try:
         img = pngdec.decode(data)
     except pngdec.PngError as e:
-        return [(f'invalid-png-{e.kind}', f'multi-frame file is not a valid APNG: {e}')], None
+        return [(f'invalid-png-{e.kind}', f'multi-frame file is not a valid APNG: {e}')]
     if len(img['frames']) != len(specs):
-        return [('multi-frame-count', f"{len(img['frames'])} frames decoded, {len(specs)} written")], None
+        return [('multi-frame-count', f"{len(img['frames'])} frames decoded, {len(specs)} written")]
     slots = []
     for s in specs:
         rect = zxrender.crop_rect(s['tiles'], s['scale'], *s['crop'])
@@ -566,6 +593,18 @@ def check_multi(image, graphics, specs, options):
             fails.append(('multi-frame-geometry', f'frame {n} placed at {geo}'))
         elif fr['rgba'] != want:
             fails.append((f"multi-pixels-bd{img['bit_depth']}", f'frame {n}: ' + first_diff(fr['rgba'], want)))
+    return fails
+
+
+def check_multi(image, graphics, specs, options):
+    """Multi-frame APNG: every frame by the display rules, common palette / transparency."""
+    try:
+        data, seen, frames, iw = capture_write(image, graphics, specs, options)
+    except Exception as e:
+        return [(f'write-image-raises-{type(e).__name__}-multi', f'write_image raises {type(e).__name__}: {e}')], None
+    fails = verify_multi(data, specs, options)
+    if fails and fails[0][0].startswith(('invalid-png', 'multi-frame-count')):
+        return fails, None
     return fails, (specs, options, data, seen, frames, iw)
 
 
@@ -595,6 +634,58 @@ def e2e_multi(chk, image, graphics):
         if art and n % 5 == 0:
             files.append(art)
     return files
+
+
+WIDE_SHAPES = ((9, 1), (1, 9), (8, 2), (16, 1), (2, 12), (32, 1), (1, 24), (10, 9), (32, 24))
+
+
+def wide_specs(rng):
+    """Directed group: arrays wider / taller than 8 tiles (up to the 32 x 24 of the statement) whose
+    distinguishing content -- a flashing cell, a masked cell, a cell of another colour -- sits in the far
+    columns / rows; uncropped, cropped to the far corner, and with a flashing band spanning the whole width."""
+    for n, (cols, rows) in enumerate(WIDE_SHAPES):
+        big = cols * rows > 100
+        for variant in range(1 if big else 3):
+            mask_type = (n + variant) % 3
+            base = rng.choice((0x38, 0x07, 0x46, 0x29))
+            other = rng.choice((0x16, 0x61, 0x0D))
+            tiles = [[[base, rand_tile_rows(rng), None] for _ in range(cols)] for _ in range(rows)]
+            far = [(cols - 1, rows - 1), (min(cols - 1, 7), min(rows - 1, 7)), (rng.randrange(cols), rng.randrange(rows))]
+            if variant == 2:                    # a flashing band over the full width / height
+                far += [(c, rows - 1) for c in range(cols)] if cols >= rows else [(cols - 1, r) for r in range(rows)]
+            for k, (c, r) in enumerate(far):
+                t = tiles[r][c]
+                t[0] = (other if k % 2 else base) | 128
+                if t[0] & 7 == (t[0] >> 3) & 7:
+                    t[0] ^= 1
+                t[1] = [rng.choice((0x0F, 0xF0, 0x55, 0x3C, rng.randrange(1, 255))) for _ in range(8)]
+                if mask_type and k != 1:
+                    t[2] = [rng.choice((0xFF, 0x0F, 0x5A, rng.randrange(256))) for _ in range(8)]
+            c, r = rng.randrange(cols), rng.randrange(rows)
+            tiles[r][c][0] = other
+            tiles = [[tuple(t) for t in row] for row in tiles]
+            scale = 1 if big else rng.choice((1, 2, 3))
+            inc = 8 * scale
+            if variant == 1:                    # crop to the far corner, not tile aligned
+                x = max(0, inc * (cols - 2) + rng.randrange(inc))
+                y = max(0, inc * (rows - 2) + rng.randrange(inc))
+                crop = (x, y, rng.choice((None, inc * cols - x - rng.randrange(3))), rng.choice((None, inc * rows - y - rng.randrange(3))))
+            elif variant == 2:
+                crop = rand_crop(rng, scale, cols, rows)
+            else:
+                crop = (0, 0, None, None)
+            yield {'tiles': tiles, 'scale': scale, 'crop': crop, 'mask': mask_type, 'tindex': 0, 'alpha': -1}
+
+
+def e2e_wide(chk, image, graphics):
+    for n, spec in enumerate(wide_specs(chk.rng)):
+        options = {'PNGEnableAnimation': 1}
+        fails, _art = check_single(image, graphics, spec, options)
+        chk.case('e2e-wide', ('wide', n), {'scale': spec['scale'], 'crop': spec['crop'], 'mask': spec['mask'],
+                                            'tiles': f"{len(spec['tiles'][0])}x{len(spec['tiles'])}"})
+        for key, desc in fails:
+            chk.violation(key, desc + f" [{len(spec['tiles'][0])}x{len(spec['tiles'])} tiles, scale {spec['scale']}, crop {spec['crop']}, mask {spec['mask']}]",
+                          {'kind': 'single', 'spec': spec, 'options': options})
 
 
 def scr_tiles(mem, x, y, w, h):
@@ -662,6 +753,65 @@ def rand_memory(rng):
     return mem
 
 
+def macro_params(rng, names, values, defaults, required=1):
+    """Parameter string of an image macro: a random tail of parameters whose value is the documented
+    default is omitted, and some of the others are given as keyword arguments (name=value)."""
+    n = len(values)
+    while n > required and values[n - 1] == defaults[n - 1] and rng.randrange(4):
+        n -= 1
+    kw_from = rng.randrange(required, n + 1) if rng.randrange(4) == 0 else n
+    parts = [str(v) for v in values[:kw_from]]
+    kws = [(names[i], values[i]) for i in range(kw_from, n) if values[i] != defaults[i] or rng.randrange(2)]
+    rng.shuffle(kws)
+    parts += ['{}={}'.format(k, v) for k, v in kws]
+    txt = ','.join(parts)
+    # a negative value is an arithmetic expression: the parameter string must then be in parentheses
+    return '(' + txt + ')' if '-' in txt or rng.randrange(3) == 0 else txt
+
+
+def expand_range(start, end, hstep, vstep, width):
+    """Documented meaning of an address range 'start-end-hstep-vstep' in an array `width` items wide."""
+    out, r = [], 0
+    while True:
+        for c in range(width):
+            a = start + c * hstep + r * vstep
+            if a > end:
+                return out
+            out.append(a)
+        r += 1
+
+
+def rand_range(rng, n, width, lo=23296, hi=56000):
+    """(text, addresses): an address range specification that denotes exactly n addresses."""
+    form = rng.randrange(5) if n > 1 else rng.choice((0, 0, 4))
+    a = rng.randrange(lo, hi)
+    if form == 0 or n == 1:
+        if n == 1:
+            return (str(a) if form != 4 else f'{a}-{a}'), [a]
+        return f'{a}x{n}', [a] * n
+    if form == 1:                       # simple range
+        return f'{a}-{a + n - 1}', list(range(a, a + n))
+    if form == 2:                       # range with a step
+        st = rng.choice((1, 2, 8, 16, 256))
+        e = a + (n - 1) * st + rng.randrange(st)
+        return f'{a}-{e}-{st}', [a + k * st for k in range(n)]
+    if form == 3:                       # horizontal and vertical steps
+        h = rng.choice((1, 2, 8, 32))
+        v = h * (width - 1) + rng.choice((1, 8, 16, 300))
+        addrs = [a + (k % width) * h + (k // width) * v for k in range(n)]
+        nxt = a + (n % width) * h + (n // width) * v
+        e = addrs[-1] + rng.randrange(nxt - addrs[-1])
+        assert expand_range(a, e, h, v, width) == addrs
+        return f'{a}-{e}-{h}-{v}', addrs
+    # a repeated shorter range
+    for m in (3, 2):
+        if n % m == 0 and n > m:
+            t, ad = rand_range(rng, n // m, width, lo, hi)
+            if 'x' not in t:
+                return f'{t}x{m}', ad * m
+    return f'{a}-{a + 8 * (n - 1)}-8', [a + 8 * k for k in range(n)]
+
+
 def sna2img_case(rng, mem):
     """(args, expectation, animated) for one invocation."""
     scale = rng.choice((1, 1, 2, 3))
@@ -672,11 +822,16 @@ def sna2img_case(rng, mem):
         extra += ['-f', str(flip)]
     if rotate:
         extra += ['-r', str(rotate)]
-    kind = rng.randrange(3)
+    kind = rng.randrange(6)
+    if kind:
+        macro, expect = macro_case(rng, mem, kind, scale, flip, rotate)
+        return ['-e', macro] + extra, expect, anim
     if kind == 0:
         # plain screenshot region
         x, y = rng.randrange(32), rng.randrange(24)
         w, h = rng.randrange(1, 7), rng.randrange(1, 5)
+        if rng.randrange(6) == 0:
+            w, h = rng.choice(((12, 2), (32, 1), (9, 9), (3, 24)))      # wider / taller than 8 tiles
         invert = rng.randrange(3) == 0
         tiles = scr_tiles(mem, x, y, w, h)
         if invert:
@@ -684,41 +839,147 @@ def sna2img_case(rng, mem):
             extra.append('-i')
         args = ['-o', f'{x},{y}', '-S', f'{w}x{h}', '-s', str(scale)] + extra
         return args, (transform(tiles, flip, rotate), scale, (0, 0, None, None), 0, 0, -1), anim
+
+
+def macro_case(rng, mem, kind, scale, flip=0, rotate=0, fname='', nocrop=False):
+    """(macro text, expectation) for #SCR (kind 1), #UDG (2), #FONT (3), #UDGARRAY (4 simple, 5 with address
+    ranges etc.); flip / rotate are applied by the caller to the tile array after the macro's own."""
+    crop_txt = lambda crop: '' if crop == (0, 0, None, None) and rng.randrange(2) else '{' + ','.join('' if v is None else str(v) for v in crop) + '}'
+    if nocrop:
+        rand_crop = lambda *a, **k: (0, 0, None, None)
+    else:
+        rand_crop = globals()['rand_crop']
     if kind == 1:
-        # #SCR macro with crop
+        # #SCR macro with crop; omitted parameters take the documented defaults
         x, y = rng.randrange(30), rng.randrange(22)
         w, h = rng.randrange(1, 6), rng.randrange(1, 4)
+        tindex, alpha = rng.choice((0, 0, 1, 8, rng.randrange(16))), rng.choice((-1, 0, 77))
+        values = [scale, x, y, w, h, 16384, 22528, tindex, alpha]
+        defaults = (1, 0, 0, 32, 24, 16384, 22528, 0, -1)
+        if rng.randrange(5) == 0:
+            values[3:5] = [32, 24]
+            values[1:3] = [rng.choice((0, 25)), rng.choice((0, 21))]
+            scale = values[0] = 1
+        x, y, w, h = values[1:5]
         tiles = scr_tiles(mem, x, y, w, h)
         final = transform(tiles, flip, rotate)
         crop = rand_crop(rng, scale, len(final[0]), len(final), far_origin=rng.randrange(4) == 0)
-        tindex, alpha = rng.choice((0, 0, 1, 8, rng.randrange(16))), rng.choice((-1, 0, 77))
-        c = ','.join('' if v is None else str(v) for v in crop)
-        macro = f'#SCR({scale},{x},{y},{w},{h},16384,22528,{tindex},{alpha}){{{c}}}'
+        names = ('scale', 'x', 'y', 'w', 'h', 'df', 'af', 'tindex', 'alpha')
+        macro = f'#SCR{macro_params(rng, names, values, defaults, 0)}{crop_txt(crop)}{fname}'
         # the crop applies to the picture before sna2img's own -f/-r, which act on the tile array
-        return ['-e', macro] + extra, (final, scale, crop, 0, tindex, alpha), anim
-    # #UDGARRAY with masks, per-macro flip/rotate, crop
-    width, height = rng.randrange(1, 4), rng.randrange(1, 4)
+        return macro, (final, scale, crop, 0, tindex, alpha)
+    if kind == 2:
+        # #UDG with mask, flip, rotate; omitted parameters take the documented defaults
+        addr = rng.randrange(23296, 60000)
+        attr = rng.choice((56, 56, 7, 0x47, 0xB8, rng.randrange(256)))
+        uscale = rng.choice((4, 4, 1, 2, 3))
+        step = rng.choice((1, 1, 2, 256))
+        inc = rng.choice((0, 0, 1, 200))
+        mflip, mrot = rng.choice((0, 0, 1, 2, 3)), rng.choice((0, 0, 1, 2, 3))
+        mask_type = rng.choice((1, 1, 0, 2))
+        tindex, alpha = rng.choice((0, 0, 2, rng.randrange(16))), rng.choice((-1, -1, 0, 200))
+        values = [addr, attr, uscale, step, inc, mflip, mrot, mask_type, tindex, alpha]
+        defaults = (None, 56, 4, 1, 0, 0, 0, 1, 0, -1)
+        names = ('addr', 'attr', 'scale', 'step', 'inc', 'flip', 'rotate', 'mask', 'tindex', 'alpha')
+        data = [(mem[addr + n * step] + inc) % 256 for n in range(8)]
+        mask, mtxt = None, ''
+        if rng.randrange(3):
+            maddr = rng.randrange(23296, 60000)
+            mstep = rng.choice((step, step, 1, 3))
+            mtxt = f':{maddr}' if mstep == step and rng.randrange(2) else f':{maddr},{mstep}'
+            if mask_type:
+                mask = [mem[maddr + n * mstep] for n in range(8)]
+        eff_mask = mask_type if mask else 0
+        t2 = transform(transform([[(attr, data, mask)]], mflip, mrot), flip, rotate)
+        crop = rand_crop(rng, uscale, 1, 1)
+        macro = f'#UDG{macro_params(rng, names, values, defaults)}{mtxt}{crop_txt(crop)}{fname}'
+        return macro, (t2, uscale, crop, eff_mask, tindex, alpha)
+    if kind == 3:
+        # #FONT: text or a number of characters from code 32
+        base = rng.randrange(23296, 60000)
+        attr = rng.choice((56, 56, 7, 0x47, rng.randrange(256)))
+        fscale = rng.choice((2, 2, 1, 3))
+        tindex, alpha = rng.choice((0, 0, 2, rng.randrange(16))), rng.choice((-1, -1, 0, 200))
+        if rng.randrange(3) == 0:
+            chars = rng.choice((1, 2, 5, 12, 12, rng.choice((95, 96, 97, 200))))     # at most the 96 characters 32..127
+            text = ''.join(chr(32 + k) for k in range(min(chars, 96)))
+            ttxt = ''
+            if chars > 12:
+                fscale = 1
+        else:
+            chars = 0
+            text = ''.join(rng.choice('ABCXYZabcxyz0189 ~!') for _ in range(rng.randrange(1, 7)))
+            ttxt = f'({text})'
+        values = [base, chars, attr, fscale, tindex, alpha]
+        defaults = (None, 0, 56, 2, 0, -1)
+        names = ('addr', 'chars', 'attr', 'scale', 'tindex', 'alpha')
+        tiles = [[(attr, [mem[base + 8 * (ord(c) - 32) + n] for n in range(8)], None) for c in text]]
+        final = transform(tiles, flip, rotate)
+        crop = rand_crop(rng, fscale, len(final[0]), len(final))
+        macro = f'#FONT{macro_params(rng, names, values, defaults)}{ttxt}{crop_txt(crop)}{fname}'
+        return macro, (final, fscale, crop, 0, tindex, alpha)
+    # #UDGARRAY: address ranges (steps, repetition), per-specification attr/step/inc, mask ranges,
+    # attribute addresses, per-macro flip/rotate, crop
+    width, height = rng.randrange(1, 5), rng.randrange(1, 4)
     mask_type = rng.randrange(3)
     step = rng.choice((1, 1, 2, 256))
     inc = rng.choice((0, 0, 1, 200))
     attr = rng.choice((56, 7, 0x47, 0xB8, rng.randrange(256)))
-    tiles, specs = [], []
-    for r in range(height):
-        row = []
-        for c in range(width):
-            addr = rng.randrange(23296, 60000)
-            data = [(mem[addr + n * step] + inc) % 256 for n in range(8)]
-            a = rng.choice((attr, attr, rng.randrange(256)))
-            sp = f'{addr},{a}'
+    total = width * height
+    if height == 1 and rng.randrange(3) == 0:
+        total = rng.randrange(1, width + 1)           # a single short row: the array is that wide
+    tiles_flat, specs = [], []
+    left = total
+    while left:
+        n = rng.randrange(1, left + 1) if kind == 5 else 1
+        atxt, addrs = rand_range(rng, n, width) if kind == 5 else (None, [rng.randrange(23296, 60000)])
+        if atxt is None:
+            atxt = str(addrs[0])
+        s_attr, s_step, s_inc = attr, step, inc
+        sp = atxt
+        k = rng.randrange(4) if kind == 5 else rng.choice((0, 1))
+        if k >= 1:
+            s_attr = rng.choice((attr, rng.randrange(256)))
+            sp += f',{s_attr}'
+        if k >= 2:
+            s_step = rng.choice((step, 1, 2, 256))
+            sp += f',{s_step}'
+        if k >= 3:
+            s_inc = rng.choice((inc, 0, 3))
+            sp += f',{s_inc}'
+        maddrs, mstep = [], s_step
+        if (mask_type or rng.randrange(6) == 0) and rng.randrange(4):
+            mn = n if rng.randrange(4) else rng.randrange(1, n + 1)      # fewer mask addresses: the rest are unmasked
+            mtxt, maddrs = rand_range(rng, mn, width) if kind == 5 else (None, [rng.randrange(23296, 60000)])
+            if mtxt is None:
+                mtxt = str(maddrs[0])
+            sp += ':' + mtxt
+            if rng.randrange(2):
+                mstep = rng.choice((s_step, 1, 3))
+                sp += f',{mstep}'
+        for i, u in enumerate(addrs):
+            data = [(mem[u + j * s_step] + s_inc) % 256 for j in range(8)]
             mask = None
-            if mask_type and rng.randrange(4):
-                maddr = rng.randrange(23296, 60000)
-                mstep = rng.choice((step, 1, 3))
-                mask = [mem[maddr + n * mstep] for n in range(8)]
-                sp += f':{maddr},{mstep}'
-            row.append((a, data, mask))
-            specs.append(sp)
-        tiles.append(row)
+            if mask_type and i < len(maddrs):
+                mask = [mem[maddrs[i] + j * mstep] for j in range(8)]
+            tiles_flat.append([s_attr, data, mask])
+        specs.append(sp)
+        left -= n
+    atxt = ''
+    if kind == 5 and rng.randrange(3) == 0:
+        # attribute addresses: the first len(addresses) tiles (row by row) take their attribute from memory
+        na = rng.choice((total, total, rng.randrange(1, total + 1)))
+        parts, aaddrs = [], []
+        while len(aaddrs) < na:
+            n = rng.randrange(1, na - len(aaddrs) + 1)
+            t, ad = rand_range(rng, n, width, 22528, 23296 - 16 * width)
+            parts.append(t)
+            aaddrs += ad
+        atxt = '[' + ';'.join(parts) + ']'
+        for t, a in zip(tiles_flat, aaddrs):
+            t[0] = mem[a]
+    w = min(width, total)
+    tiles = [[tuple(t) for t in tiles_flat[r * w:(r + 1) * w]] for r in range((total + w - 1) // w)]
     mflip, mrot = rng.choice((0, 0, 1, 2, 3)), rng.choice((0, 0, 1, 2, 3))
     has_masks = any(t[2] for row in tiles for t in row)
     eff_mask = mask_type if has_masks else 0
@@ -726,13 +987,338 @@ def sna2img_case(rng, mem):
     t2 = transform(t1, flip, rotate)
     crop = rand_crop(rng, scale, len(t2[0]), len(t2))     # the crop applies to the final picture
     tindex, alpha = rng.choice((0, 0, 2, rng.randrange(16))), rng.choice((-1, -1, 0, 200))
-    c = ','.join('' if v is None else str(v) for v in crop)
-    macro = f"#UDGARRAY({width},{attr},{scale},{step},{inc},{mflip},{mrot},{mask_type},{tindex},{alpha})({';'.join(specs)}){{{c}}}"
-    return ['-e', macro] + extra, (t2, scale, crop, eff_mask, tindex, alpha), anim
+    values = [width, attr, scale, step, inc, mflip, mrot, mask_type, tindex, alpha]
+    defaults = (None, 56, 2, 1, 0, 0, 0, 1, 0, -1)
+    names = ('width', 'attr', 'scale', 'step', 'inc', 'flip', 'rotate', 'mask', 'tindex', 'alpha')
+    if mask_type == 1 and rng.randrange(2):
+        pass                                # mask may then be left to its default (1)
+    macro = f"#UDGARRAY{macro_params(rng, names, values, defaults)}({';'.join(specs)}){atxt}{crop_txt(crop)}{fname}"
+    return macro, (t2, scale, crop, eff_mask, tindex, alpha)
+
+
+# ---- image macros in HTML mode (HtmlWriter.expand): #COPY, #PLOT, #OVER, #UDGS, #FRAMES ---------
+
+class HtmlEnv:
+    """A real HtmlWriter on a tiny skool file whose snapshot is replaced by `mem`."""
+    def __init__(self, mods, scratch, mem, tag):
+        skoolhtml, skoolparser, refparser = mods
+        self.root = os.path.join(scratch, 'html' + tag)
+        os.makedirs(self.root, exist_ok=True)
+        skool = os.path.join(self.root, 'c15.skool')
+        with open(skool, 'w') as f:
+            f.write('; Routine\nc32768 RET\n')
+        parser = skoolparser.SkoolParser(skool, html=True)
+        self.writer = skoolhtml.HtmlWriter(parser, refparser.RefParser(), skoolhtml.FileInfo(self.root, 'out', False, False))
+        self.writer.skoolkit['page_id'] = 'c15'          # format_template needs a current page
+        for a in range(16384, 65536):
+            self.writer.snapshot[a] = mem[a]
+
+    def run(self, text):
+        """Expand `text`; returns the bytes of the (single) image it writes."""
+        out = self.writer.expand(text, '')
+        m = re.findall(r'src="([^"]+)"', out)
+        if len(m) != 1:
+            raise ValueError(f'{len(m)} <img> elements in the expansion {out[:120]!r}')
+        with open(os.path.join(self.root, 'out', m[0]), 'rb') as f:
+            return f.read()
+
+
+def crop_text(crop):
+    return '{' + ','.join('' if v is None else str(v) for v in crop) + '}'
+
+
+def uniform_fg(rng, mem, n):
+    """A foreground frame whose tiles all have mask data, or none has (see overlay_expected)."""
+    fw, fr = rng.randrange(1, 4), rng.randrange(1, 3)
+    mask_type = rng.randrange(3)
+    masked = mask_type and rng.randrange(3) > 0
+    specs, flat = [], []
+    for _ in range(fw * fr):
+        a = rng.randrange(23296, 60000)
+        data = [mem[a + k] for k in range(8)]
+        mask = None
+        sp = str(a)
+        if masked:
+            ma = rng.randrange(23296, 60000)
+            mask = [mem[ma + k] for k in range(8)]
+            sp += f':{ma}'
+        specs.append(sp)
+        flat.append((rng.choice((7, 0x46)), data, mask))
+    attr = flat[0][0]
+    flat = [(attr, d, m) for _a, d, m in flat]
+    tiles = [flat[r * fw:(r + 1) * fw] for r in range(fr)]
+    macro = f"#UDGARRAY{fw},{attr},1,1,0,0,0,{mask_type}({';'.join(specs)})(*fg{n})"
+    return macro, tiles, (mask_type if masked else 0)
+
+
+OVER_ATTR = {'$f': 'f', '($b&248)|($f&7)': 'bf'}
+OVER_BYTE = {'$b^$f': 'xor', '$f': 'f', '($b&$m)|$f': 'mf', '$m': 'm'}
+
+
+def html_case(rng, mem, n):
+    """{'text', 'kind': 'single' | 'multi', 'expect' | 'specs', 'tag'} for one expansion in HTML mode."""
+    kind = rng.randrange(6)
+    spec_of = lambda e: {'tiles': e[0], 'scale': e[1], 'crop': e[2], 'mask': e[3], 'tindex': e[4], 'alpha': e[5]}
+    scale = rng.choice((1, 1, 2, 3))
+    if kind == 0:
+        k = rng.randrange(1, 6)
+        macro, e = macro_case(rng, mem, k, scale, fname=f'(img{n})')
+        return {'text': macro, 'kind': 'single', 'expect': spec_of(e), 'tag': 'direct'}
+    if kind == 1:
+        # #COPY of a part of a frame with new scale / mask / tindex / alpha / crop (omitted: inherited)
+        inherit_crop = rng.randrange(3) == 0
+        macro, e = macro_case(rng, mem, rng.choice((4, 5)), scale, fname=f'(*base{n})', nocrop=inherit_crop)
+        t, bscale, bcrop, bmask, btindex, balpha = e
+        W, H = len(t[0]), len(t)
+        x, y = rng.randrange(W), rng.randrange(H)
+        w = rng.choice((None, rng.randrange(1, W - x + 1), W + 2))
+        h = rng.choice((None, rng.randrange(1, H - y + 1), H + 2))
+        if inherit_crop and rng.randrange(2):
+            x = y = 0
+        new = {'scale': rng.choice((None, None, 1, 2, 4)), 'mask': rng.choice((None, None, 0, 1, 2)),
+               'tindex': rng.choice((None, None, 0, 3)), 'alpha': rng.choice((None, None, 0, 128))}
+        parts = [str(x), str(y)]
+        kw = []
+        if w is not None and h is not None and rng.randrange(2):
+            parts += [str(w), str(h)]
+        else:
+            kw += [(k2, v) for k2, v in (('width', w), ('height', h)) if v is not None]
+        kw += [(k2, v) for k2, v in new.items() if v is not None]
+        rng.shuffle(kw)
+        ptxt = ','.join(parts + [f'{k2}={v}' for k2, v in kw])
+        sub = [row[x:x + (w or W)] for row in t[y:y + (h or H)]]
+        nscale = new['scale'] or bscale
+        if inherit_crop:
+            ncrop, ctxt = bcrop, ''
+        else:
+            ncrop = rand_crop(rng, nscale, len(sub[0]), len(sub))
+            ctxt = crop_text(ncrop)
+        e2 = (sub, nscale, ncrop, bmask if new['mask'] is None else new['mask'], btindex if new['tindex'] is None else new['tindex'],
+              balpha if new['alpha'] is None else new['alpha'])
+        text = f'{macro}#COPY{ptxt}{ctxt}(base{n},copy{n})#FRAMES(copy{n})(img{n})'
+        return {'text': text, 'kind': 'single', 'expect': spec_of(e2), 'tag': 'copy'}
+    if kind == 2:
+        # #PLOT: set / reset / flip pixels of a frame
+        macro, e = macro_case(rng, mem, rng.choice((2, 4, 4)), scale, fname=f'(*base{n})')
+        t = [[(a, list(d), m) for a, d, m in row] for row in e[0]]
+        W, H = 8 * len(t[0]), 8 * len(t)
+        plots = ''
+        rx, ry, rw, rh = zxrender.crop_rect(t, e[1], *e[2])
+        visible = [(x, y) for y in range(H) for x in range(W)
+                   if x * e[1] < rx + rw and (x + 1) * e[1] > rx and y * e[1] < ry + rh and (y + 1) * e[1] > ry]
+        for k in range(rng.randrange(2, 7)):
+            x, y = rng.randrange(W + 3), rng.randrange(H + 3)
+            v = rng.choice((None, 0, 1, 2, 5))
+            if k < 4 and visible:
+                # a visible pixel in the state that tells set / reset / flip apart: set on a set pixel, reset on a
+                # clear one, flip on either
+                want = {None: 1, 1: 1, 0: 0}.get(v, rng.randrange(2))
+                cands = [(px, py) for px, py in visible if (t[py // 8][px // 8][1][py % 8] >> (7 - px % 8)) & 1 == want]
+                far = [c for c in cands if c[0] >= 8 and c[1] >= 8] or [c for c in cands if c[1] >= 8]
+                if far and rng.randrange(3):
+                    cands = far                      # beyond the first tile row / column
+                if cands:
+                    x, y = rng.choice(cands)
+            plots += f'#PLOT{x},{y}' + ('' if v is None else f',{v}') + f'(base{n})'
+            if x < W and y < H:
+                d = t[y // 8][x // 8][1]
+                bit = 1 << (7 - x % 8)
+                if v == 0:
+                    d[y % 8] &= ~bit & 255
+                elif v in (None, 1):
+                    d[y % 8] |= bit
+                else:
+                    d[y % 8] ^= bit
+        e2 = (t,) + tuple(e[1:])
+        return {'text': f'{macro}{plots}#FRAMES(base{n})(img{n})', 'kind': 'single', 'expect': spec_of(e2), 'tag': 'plot'}
+    if kind == 3:
+        # #OVER: foreground frame superimposed on a background frame
+        macro, e = macro_case(rng, mem, 4, scale, fname=f'(*bg{n})')
+        fmacro, fg, fmask = uniform_fg(rng, mem, n)
+        bg = e[0]
+        x, y = rng.randrange(-len(fg[0]), len(bg[0]) + 1), rng.randrange(-len(fg), len(bg) + 1)
+        xo, yo = rng.choice((0, 0, rng.randrange(-9, 10))), rng.choice((0, 0, rng.randrange(-9, 10)))
+        ptxt = f'{x},{y}' + (f',{xo},{yo}' if xo or yo or rng.randrange(2) else '')
+        rattr = rbyte = None
+        extra = ''
+        if (xo, yo) == (0, 0) and rng.randrange(2):
+            rmode = rng.randrange(1, 4)
+            ptxt = f'{x},{y},0,0,{rmode}'
+            if rmode & 1:
+                a = rng.choice(sorted(OVER_ATTR))
+                rattr, extra = RATTRS[OVER_ATTR[a]], f'({a})'
+            if rmode & 2:
+                b = rng.choice(sorted(OVER_BYTE))
+                rbyte, extra = RBYTES[OVER_BYTE[b]], extra + f'({b})'
+        want = overlay_expected(bg, fg, 8 * x + xo, 8 * y + yo, fmask, rattr, rbyte)
+        e2 = (want,) + tuple(e[1:])
+        text = f'{macro}{fmacro}#OVER({ptxt}){extra}(bg{n},fg{n})#FRAMES(bg{n})(img{n})'
+        return {'text': text, 'kind': 'single', 'expect': spec_of(e2), 'tag': 'over'}
+    if kind == 4:
+        # #UDGS: an array built from single-tile frames; the same frame may fill several cells
+        nf = rng.choice((1, 2, 2, 3))
+        macros, es = '', []
+        for i in range(nf):
+            m, e = macro_case(rng, mem, 2, scale, fname=f'(*u{n}x{i})', nocrop=True)
+            macros += m
+            es.append(e)
+        w, h = rng.randrange(1, 4), rng.randrange(1, 3)
+        idx = lambda x, y: (x + 2 * y) % nf
+        last = es[idx(w - 1, h - 1)]
+        new = {'scale': rng.choice((None, 1, 2, 3)), 'flip': rng.choice((None, 0, 1, 2, 3)), 'rotate': rng.choice((None, 0, 1, 2, 3)),
+               'mask': rng.choice((None, None, 0, 1, 2)), 'tindex': rng.choice((None, None, 0, 2)), 'alpha': rng.choice((None, None, 0, 200))}
+        kw = [(k2, v) for k2, v in new.items() if v is not None]
+        rng.shuffle(kw)
+        ptxt = ','.join([str(w), str(h)] + [f'{k2}={v}' for k2, v in kw])
+        tiles = [[es[idx(x, y)][0][0][0] for x in range(w)] for y in range(h)]
+        t2 = transform(tiles, new['flip'] or 0, new['rotate'] or 0)
+        nscale = new['scale'] if new['scale'] is not None else last[1]
+        ncrop = rand_crop(rng, nscale, len(t2[0]), len(t2))
+        e2 = (t2, nscale, ncrop, last[3] if new['mask'] is None else new['mask'], last[4] if new['tindex'] is None else new['tindex'],
+              last[5] if new['alpha'] is None else new['alpha'])
+        text = f'{macros}#UDGS({ptxt}){crop_text(ncrop)}(img{n})(u{n}x#EVAL(($x+2*$y)%{nf}))'
+        return {'text': text, 'kind': 'single', 'expect': spec_of(e2), 'tag': 'udgs'}
+    # #FRAMES with several frames, delays and offsets
+    s1 = rng.choice((2, 3, 4))
+    m1, e1 = macro_case(rng, mem, 4, s1, fname=f'(*fa{n})', nocrop=True)
+    specs = [spec_of(e1)]
+    W, H = 8 * s1 * len(e1[0][0]), 8 * s1 * len(e1[0])
+    text, ftxt = m1, f'fa{n}' + rng.choice(('', ',50'))
+    for i in range(rng.choice((1, 1, 2))):
+        m2, e2 = macro_case(rng, mem, 2, 1, fname=f'(*fb{n}x{i})')
+        sp = spec_of(e2)
+        r = zxrender.crop_rect(sp['tiles'], sp['scale'], *sp['crop'])
+        if r[2] > W or r[3] > H:
+            continue
+        sp['x_offset'], sp['y_offset'] = rng.randrange(W - r[2] + 1), rng.randrange(H - r[3] + 1)
+        sp['delay'] = rng.choice((1, 32, 300))
+        text += m2
+        ftxt += f";fb{n}x{i},{sp['delay']},{sp['x_offset']},{sp['y_offset']}"
+        specs.append(sp)
+    if len(specs) == 1:
+        return {'text': f'{text}#FRAMES({ftxt})(img{n})', 'kind': 'single', 'expect': specs[0], 'tag': 'frames1'}
+    return {'text': f'{text}#FRAMES({ftxt})(img{n})', 'kind': 'multi', 'specs': specs, 'tag': 'frames'}
+
+
+def check_html(env, case):
+    try:
+        data = env.run(case['text'])
+    except Exception as e:
+        return [(f"html-macro-raises-{type(e).__name__}-{case['tag']}", f"expanding {case['text'][:200]} raises {type(e).__name__}: {str(e)[:200]}")]
+    if case['kind'] == 'multi':
+        fails = verify_multi(data, case['specs'], {})
+    else:
+        fails = verify_single(data, case['expect'], {})
+    return [(f"html-{case['tag']}-{key}", f"{case['text'][:300]}: {desc}") for key, desc in fails]
+
+
+def e2e_html(chk, mods):
+    rng = chk.rng
+    env = mem = None
+    for n in range(chk.scale(420, 4000)):
+        if n % 140 == 0:
+            mem = rand_memory(rng)
+            env = HtmlEnv(mods, chk.scratch, mem, str(n))
+        case = html_case(rng, mem, n)
+        e = case.get('expect') or case['specs'][0]
+        rect = zxrender.crop_rect(e['tiles'], e['scale'], *e['crop'])
+        chk.case('e2e-html-' + case['tag'], ('html', n), {'text': case['text'][:200]})
+        for key, desc in check_html(env, case):
+            if 'raises-ValueError' in key or 'raises-KeyError' in key:
+                if rect[2] < rect[0] or rect[3] < rect[1]:
+                    key = KEY_F6
+            chk.violation(key, desc, {'kind': 'html', 'case': case, 'mem': bytes(mem[16384:]).hex()})
+
+
+MACRO_DEFAULTS = {
+    # name: (parameter names, documented defaults (None = required), index of the scale parameter)
+    'SCR': (('scale', 'x', 'y', 'w', 'h', 'df', 'af', 'tindex', 'alpha'), (1, 0, 0, 32, 24, 16384, 22528, 0, -1)),
+    'UDG': (('addr', 'attr', 'scale', 'step', 'inc', 'flip', 'rotate', 'mask', 'tindex', 'alpha'), (None, 56, 4, 1, 0, 0, 0, 1, 0, -1)),
+    'FONT': (('addr', 'chars', 'attr', 'scale', 'tindex', 'alpha'), (None, 0, 56, 2, 0, -1)),
+    'UDGARRAY': (('width', 'attr', 'scale', 'step', 'inc', 'flip', 'rotate', 'mask', 'tindex', 'alpha'), (None, 56, 2, 1, 0, 0, 0, 1, 0, -1)),
+}
+
+
+def directed_macros(rng, mem):
+    """Directed group: every optional parameter of #SCR / #UDG / #FONT / #UDGARRAY omitted on its own (the ones
+    before it positional, the ones after it as keyword arguments with non-default values), so that each
+    documented default decides the picture; and the #FONT character-count boundary (96 characters, 32..127).
+    Yields (macro, expectation)."""
+    nd = {'scale': 3, 'x': 2, 'y': 21, 'w': 3, 'h': 2, 'df': 16384 + 2048, 'af': 22528 + 32, 'tindex': 2, 'alpha': 77, 'attr': 0x47,
+          'step': 2, 'inc': 3, 'flip': 1, 'rotate': 1, 'mask': 2, 'chars': 3}
+    for name, (names, defaults) in MACRO_DEFAULTS.items():
+        for j, dflt in enumerate(defaults):
+            if dflt is None:
+                continue
+            vals = {}
+            for k, pname in enumerate(names):
+                if defaults[k] is None:
+                    vals[pname] = rng.randrange(30000, 50000) if pname == 'addr' else 2
+                elif k == j:
+                    vals[pname] = dflt
+                else:
+                    vals[pname] = nd[pname]
+            if name == 'SCR' and names[j] in ('w', 'h'):
+                vals['scale'] = 1
+                vals['x' if names[j] == 'w' else 'y'] = 0        # the default 32 / 24 reaches the edge of the screen
+            if name == 'FONT' and names[j] != 'chars':
+                vals['chars'] = 3
+            if names[j] == 'mask':
+                vals['mask'] = dflt                               # default 1
+            pos = [str(vals[p]) for p in names[:j]]
+            kws = ['{}={}'.format(p, vals[p]) for p in names[j + 1:]]
+            ptxt = '(' + ','.join(pos + kws) + ')'
+            sc = vals['scale']
+            if name == 'SCR':
+                x, y, w, h = vals['x'], vals['y'], vals['w'], vals['h']
+                tiles = []
+                for r in range(y, min(y + h, 24)):
+                    row = []
+                    for c in range(x, min(x + w, 32)):
+                        a = vals['df'] + 2048 * (r // 8) + 32 * (r % 8) + c
+                        row.append((mem[vals['af'] + 32 * r + c], [mem[a + 256 * n] for n in range(8)], None))
+                    tiles.append(row)
+                yield f'#SCR{ptxt}', (tiles, sc, (0, 0, None, None), 0, vals['tindex'], vals['alpha'])
+            elif name == 'UDG':
+                maddr = rng.randrange(30000, 50000)
+                data = [(mem[vals['addr'] + n * vals['step']] + vals['inc']) % 256 for n in range(8)]
+                mask = [mem[maddr + n * vals['step']] for n in range(8)] if vals['mask'] else None
+                t = transform([[(vals['attr'], data, mask)]], vals['flip'], vals['rotate'])
+                yield f'#UDG{ptxt}:{maddr}', (t, sc, (0, 0, None, None), vals['mask'], vals['tindex'], vals['alpha'])
+            elif name == 'FONT':
+                n = min(vals['chars'], 96)
+                if names[j] == 'chars':
+                    text, ttxt = 'Az', '(Az)'
+                else:
+                    text, ttxt = ''.join(chr(32 + k) for k in range(n)), ''
+                tiles = [[(vals['attr'], [mem[vals['addr'] + 8 * (ord(c) - 32) + k] for k in range(8)], None) for c in text]]
+                yield f'#FONT{ptxt}{ttxt}', (tiles, sc, (0, 0, None, None), 0, vals['tindex'], vals['alpha'])
+            else:
+                a1, a2, m1 = (rng.randrange(30000, 50000) for _ in range(3))
+                tl = []
+                for a, m in ((a1, m1), (a2, None)):
+                    data = [(mem[a + n * vals['step']] + vals['inc']) % 256 for n in range(8)]
+                    mask = [mem[m + n * vals['step']] for n in range(8)] if m is not None and vals['mask'] else None
+                    tl.append((vals['attr'], data, mask))
+                t = transform([tl], vals['flip'], vals['rotate'])
+                yield f'#UDGARRAY{ptxt}({a1}:{m1};{a2})', (t, sc, (0, 0, None, None), vals['mask'], vals['tindex'], vals['alpha'])
+    base = rng.randrange(30000, 50000)
+    for chars in (95, 96, 97, 200):
+        n = min(chars, 96)
+        tiles = [[(56, [mem[base + 8 * k + j] for j in range(8)], None) for k in range(n)]]
+        yield f'#FONT{base},{chars},56,1', (tiles, 1, (0, 0, None, None), 0, 0, -1)
+    yield '#SCR', (scr_tiles(mem, 0, 0, 32, 24), 1, (0, 0, None, None), 0, 0, -1)
 
 
 def e2e_sna2img(chk, sna2img):
     rng = chk.rng
+    mem = rand_memory(rng)
+    for n, (macro, expect) in enumerate(directed_macros(rng, mem)):
+        args = ['-e', macro]
+        fails = check_sna2img(sna2img, chk.scratch, mem, args, expect, True)
+        chk.case('e2e-sna2img-directed', ('sna2img-directed', n), {'args': args})
+        for key, desc in fails:
+            chk.violation(key, desc, {'kind': 'sna2img', 'args': args, 'mem': bytes(mem[16384:]).hex(), 'expect': list(expect), 'anim': True})
     mem = None
     for n in range(chk.scale(450, 4000)):
         if n % 25 == 0:
@@ -740,7 +1326,7 @@ def e2e_sna2img(chk, sna2img):
         args, expect, anim = sna2img_case(rng, mem)
         seed = [chk.seed, n]
         fails = check_sna2img(sna2img, chk.scratch, mem, args, expect, anim)
-        chk.case('e2e-sna2img-' + ('macro' if args[0] == '-e' else 'screen'), ('sna2img', n), {'args': args})
+        chk.case('e2e-sna2img-' + (re.match('#([A-Z]+)', args[1]).group(1).lower() if args[0] == '-e' else 'screen'), ('sna2img', n), {'args': args})
         for key, desc in fails:
             tiles, scale, crop, mask_type, tindex, alpha = expect
             rect = zxrender.crop_rect(tiles, scale, *crop)
@@ -749,21 +1335,150 @@ def e2e_sna2img(chk, sna2img):
             chk.violation(key, desc, {'kind': 'sna2img', 'args': args, 'mem': bytes(mem[16384:]).hex(), 'expect': list(expect), 'anim': anim})
 
 
+def geometry_udgs(graphics, tiles, shared):
+    """Udg array for `tiles`; the positions listed in `shared` hold the *same* Udg object as the position
+    they name (as #UDGS builds arrays from named frames): flip_udgs / rotate_udgs must transform it once."""
+    udgs = mk_udgs(graphics, tiles)
+    for (r, c), (r0, c0) in shared:
+        udgs[r][c] = udgs[r0][c0]
+    return udgs
+
+
 def e2e_geometry(chk, graphics):
     """flip_udgs / rotate_udgs / Udg.flip / Udg.rotate against the documented geometry."""
     rng = chk.rng
     for n in range(chk.scale(300, 4000)):
         rows, cols = rng.randrange(1, 4), rng.randrange(1, 4)
         tiles = rand_tiles(rng, cols, rows, rng.randrange(2))
+        shared = []
+        if n % 3 == 0 and rows * cols > 1:
+            for _ in range(rng.randrange(1, rows * cols)):
+                (r, c), (r0, c0) = (rng.randrange(rows), rng.randrange(cols)), (rng.randrange(rows), rng.randrange(cols))
+                if (r, c) != (r0, c0) and all((r0, c0) != a and (r, c) != b and (r, c) != a for a, b in shared):
+                    tiles[r][c] = tiles[r0][c0]
+                    shared.append(((r, c), (r0, c0)))
         flip, rotate = rng.randrange(4), rng.randrange(4)
-        udgs = mk_udgs(graphics, tiles)
-        graphics.flip_udgs(udgs, flip)
-        graphics.rotate_udgs(udgs, rotate)
+        udgs = geometry_udgs(graphics, tiles, shared)
+        try:
+            graphics.flip_udgs(udgs, flip)
+            graphics.rotate_udgs(udgs, rotate)
+            got = udgs_to_tiles(udgs)
+        except Exception as e:
+            got = type(e).__name__
         want = transform(tiles, flip, rotate)
-        chk.case('e2e-geometry', ('geometry', n))
-        if udgs_to_tiles(udgs) != want:
-            chk.violation(f'flip-rotate-geometry-f{flip}-r{rotate}', f'flip_udgs({flip}) then rotate_udgs({rotate}) does not move pixels as documented',
-                          {'kind': 'geometry', 'tiles': tiles, 'flip': flip, 'rotate': rotate})
+        chk.case('e2e-geometry' + ('-shared' if shared else ''), ('geometry', n))
+        if got != want:
+            chk.violation(f'flip-rotate-geometry-f{flip}-r{rotate}', f'flip_udgs({flip}) then rotate_udgs({rotate}) does not move pixels as documented'
+                          + (' (array with a Udg object used in several positions)' if shared else ''),
+                          {'kind': 'geometry', 'tiles': tiles, 'flip': flip, 'rotate': rotate, 'shared': shared})
+
+
+# ---- #OVER / overlay_udgs -------------------------------------------------------------------
+
+def overlay_expected(bg, fg, x, y, mask_type, rattr=None, rbyte=None):
+    """Documented semantics (skool-macros.rst #OVER, graphics.overlay_udgs): the foreground is placed with its
+    top-left pixel at (x, y) of the background; where it has no mask (or mask type 0) its bits are ORed in,
+    with an OR-AND mask the result is (b | f) & m, with an AND-OR mask (b & m) | f; background outside the
+    foreground is unchanged.  rattr / rbyte (tile-aligned only) replace the attribute / graphic bytes of every
+    background tile under a foreground tile."""
+    B = zxrender.picture_bits(bg)
+    F = zxrender.picture_bits(fg)
+    H, W = len(B), len(B[0])
+    bits = [[b[1] for b in row] for row in B]
+    if rbyte is None:
+        for fy, row in enumerate(F):
+            for fx, (_a, u, m) in enumerate(row):
+                X, Y = x + fx, y + fy
+                if 0 <= X < W and 0 <= Y < H:
+                    b = bits[Y][X]
+                    if m is None or mask_type == 0:
+                        bits[Y][X] = b | u
+                    elif mask_type == 1:
+                        bits[Y][X] = (b | u) & m
+                    else:
+                        bits[Y][X] = (b & m) | u
+    out = []
+    for r, row in enumerate(bg):
+        orow = []
+        for c, (attr, data, mask) in enumerate(row):
+            data = [sum(bits[8 * r + k][8 * c + j] << (7 - j) for j in range(8)) for k in range(8)]
+            fr, fc = r - y // 8, c - x // 8
+            if (rattr or rbyte) and 0 <= fr < len(fg) and 0 <= fc < len(fg[0]):
+                fa, fd, fm = fg[fr][fc]
+                if rbyte:
+                    data = [rbyte(bg[r][c][1][k], fd[k], fm[k] if fm else 0) for k in range(8)]
+                if rattr:
+                    attr = rattr(attr, fa)
+            orow.append((attr, data, mask))
+        out.append(orow)
+    return out
+
+
+RATTRS = {'f': lambda b, f: f, 'bf': lambda b, f: (b & 0xF8) | (f & 7), 'c': lambda b, f: 0x47}
+RBYTES = {'xor': lambda b, f, m: b ^ f, 'mf': lambda b, f, m: (b & m) | f, 'f': lambda b, f, m: f, 'm': lambda b, f, m: m}
+
+
+def check_overlay(graphics, d):
+    bg, fg = d['bg'], d['fg']
+    bg_udgs, fg_udgs = mk_udgs(graphics, bg), mk_udgs(graphics, fg)
+    rattr, rbyte = RATTRS.get(d.get('rattr')), RBYTES.get(d.get('rbyte'))
+    try:
+        if d.get('via_frame'):
+            graphics.Frame(bg_udgs).overlay(graphics.Frame(fg_udgs, mask=d['mask']), d['x'], d['y'], rattr, rbyte)
+        else:
+            graphics.overlay_udgs(bg_udgs, fg_udgs, d['x'], d['y'], d['mask'], rattr, rbyte)
+    except Exception as e:
+        return f'raises {type(e).__name__}: {e}'
+    got = udgs_to_tiles(bg_udgs)
+    want = overlay_expected(bg, fg, d['x'], d['y'], d['mask'], rattr, rbyte)
+    if got != want:
+        for r, (grow, wrow) in enumerate(zip(got, want)):
+            for c, (g, w) in enumerate(zip(grow, wrow)):
+                if g != w:
+                    return f'background tile ({c},{r}) becomes {g}, documented result {w}'
+        return 'array shapes differ'
+    if udgs_to_tiles(fg_udgs) != fg:
+        return 'the foreground array was modified'
+    return None
+
+
+def e2e_overlay(chk, graphics):
+    """#OVER: a foreground array (uniformly masked or unmasked) superimposed at any pixel offset, also partly
+    or wholly outside the background; attribute / byte replacement functions at tile-aligned offsets."""
+    rng = chk.rng
+    # directed: the mask byte handed to a byte-replacement function is the foreground mask byte, or 0 for every
+    # row of a foreground tile without mask data
+    for masked in (False, True):
+        mk = [rand_byte(rng) | 1 for _ in range(8)]
+        d = {'bg': [[(56, [255] * 8, None)]], 'fg': [[(7, [0x81] * 8, mk if masked else None)]], 'mask': 1, 'x': 0, 'y': 0, 'rbyte': 'm'}
+        chk.case('e2e-overlay-directed', ('overlay-m', masked))
+        msg = check_overlay(graphics, d)
+        if msg:
+            chk.violation('overlay-replace-aligned', f'overlay_udgs with a byte replacement function that returns the mask byte: {msg}', dict(d, kind='overlay'))
+    for n in range(chk.scale(400, 4000)):
+        brows, bcols = rng.randrange(1, 4), rng.randrange(1, 5)
+        frows, fcols = rng.randrange(1, 3), rng.randrange(1, 4)
+        bg = rand_tiles(rng, bcols, brows, rng.randrange(3) == 0)
+        masked = rng.randrange(3) > 0
+        fg = [[(rng.randrange(256), rand_tile_rows(rng), rand_tile_rows(rng) if masked else None) for _ in range(fcols)] for _ in range(frows)]
+        # an all-zero mask row list is "no mask" for skoolkit only if the list is empty; keep 8 bytes
+        mask_type = rng.randrange(3)
+        d = {'bg': bg, 'fg': fg, 'mask': mask_type, 'via_frame': n % 2 == 0,
+             'x': rng.choice((0, 8, rng.randrange(-8 * fcols - 2, 8 * bcols + 2), rng.randrange(-9, 8 * bcols))),
+             'y': rng.choice((0, 8, rng.randrange(-8 * frows - 2, 8 * brows + 2), rng.randrange(-9, 8 * brows)))}
+        if n % 4 == 3:
+            d['x'], d['y'] = 8 * rng.randrange(-fcols, bcols + 1), 8 * rng.randrange(-frows, brows + 1)
+            if rng.randrange(2):
+                d['rattr'] = rng.choice(sorted(RATTRS))
+            if rng.randrange(2):
+                d['rbyte'] = rng.choice(sorted(RBYTES))
+        aligned = d['x'] % 8 == 0 and d['y'] % 8 == 0
+        chk.case('e2e-overlay-' + ('aligned' if aligned else 'shifted') + ('-masked' if masked and mask_type else ''), ('overlay', n))
+        msg = check_overlay(graphics, d)
+        if msg:
+            kind = 'replace' if d.get('rattr') or d.get('rbyte') else f"mask{mask_type if masked else 0}"
+            chk.violation(f"overlay-{kind}-{'aligned' if aligned else 'shifted'}",
+                          f"overlay_udgs at ({d['x']},{d['y']}), mask type {mask_type}: {msg}", dict(d, kind='overlay'))
 
 
 # ---- entry points -------------------------------------------------------------------------
@@ -772,8 +1487,14 @@ def run(chk):
     chk.rule = ('tile arrays 1..4 x 1..3 with boundary-biased bytes (0/255/1/128/0F/F0/55/AA/random), attribute pools that force '
                 'bit depths 1/2/4 and ink==paper, masks present/absent/partial, scale in {1,2,3,4,5,8}, crops on/next to tile and '
                 'scaled-pixel boundaries, width/height 1, None, oversize; flashing streams incl. crop origin > crop size; '
-                'multi-frame APNGs with offsets; sna2img on random memory (screen region, #SCR, #UDGARRAY with masks, flip, rotate, '
-                'invert, crop). non-trivial = every generated picture (distinct by generator index); correspondence ops are distinct by content')
+                'multi-frame APNGs with offsets; mask data present with mask type 0; a directed group of arrays wider / taller than 8 '
+                'tiles (9x1 ... 32x24) with the flashing / masked / odd-coloured cells in the far columns and rows; sna2img on random '
+                'memory (screen region incl. 32x1 / 3x24, #SCR, #UDG, #FONT, #UDGARRAY with address ranges a-b-step-vstep and xN, per-UDG '
+                'attr/step/inc, mask ranges and steps, attribute addresses, omitted (default) and keyword parameters (a directed sweep omits every optional parameter of the four macros on its own; #FONT with 95/96/97/200 characters), flip, rotate, '
+                'invert, crop); the image macros in HTML mode on a real HtmlWriter (#COPY, #PLOT, #OVER, #UDGS with a frame used in '
+                'several cells, #FRAMES with delays and offsets); overlay_udgs at every pixel offset incl. outside the background; '
+                'flip_udgs / rotate_udgs on arrays that hold one Udg object in several cells. '
+                'non-trivial = every generated picture (distinct by generator index); correspondence ops are distinct by content')
     chk.trusted += ['hand models lean/SkoolVerif/Model/{PngCrc,ZxTile,PngScan}.lean tied by correspondence (harness/props/c15.py)',
                     'zlib (deflate streams; zlib.crc32 is the CRC oracle of the independent decoder), CPython',
                     'independent decoder harness/indep/pngdec.py and display-rule renderer harness/indep/zxrender.py']
@@ -789,31 +1510,50 @@ def run(chk):
         'flip/rotate: pixel maps, involution and composition are proved per tile (Udg.flip/rotate); flip_udgs / rotate_udgs pixel maps are proved '
         'for rectangular arrays (ragged arrays, which rotate_udgs tolerates, are tied by correspondence only)',
         'tindex / alpha / tRNS semantics, multi-frame APNG assembly beyond chunk order + sequence numbers, and skoolmacro parameter '
-        'parsing are outside the theorems (e2e: ImageWriter.write_image and sna2img.main with #SCR/#UDGARRAY)',
+        'parsing are outside the theorems (e2e: ImageWriter.write_image, sna2img.main with #SCR/#UDG/#FONT/#UDGARRAY, and '
+        'HtmlWriter.expand with #COPY/#PLOT/#OVER/#UDGS/#FRAMES against oracles written from skool-macros.rst)',
+        'overlay_udgs / #OVER has no Lean model: it is checked end to end only, for foreground arrays whose tiles all have mask '
+        'data or none has (for mixed arrays the documentation does not fix the result at pixel offsets that are not multiples of 8), '
+        'and attribute / byte replacement only at tile-aligned offsets',
         'byte-domain: tile data/mask bytes and attributes are 0..255 and tiles have 8 rows (WfUdg); Frame arithmetic assumes the crop '
         'origin lies inside the picture (skoolkit does not validate crop specifications)']
-    pngwriter, image, graphics, sna2img = fresh_import('skoolkit.pngwriter', 'skoolkit.image', 'skoolkit.graphics', 'skoolkit.sna2img')
+    pngwriter, image, graphics, sna2img, *htmlmods = fresh_import('skoolkit.pngwriter', 'skoolkit.image', 'skoolkit.graphics', 'skoolkit.sna2img',
+                                                                 'skoolkit.skoolhtml', 'skoolkit.skoolparser', 'skoolkit.refparser')
     built = chk.lake_build([PROPS, 'SkoolVerif.Prelude.Proto'])
     chk.audit(PROPS)
     if chk.thorough and built:
         chk.leanchecker([PROPS])
     co = Corr(chk)
-    corr_crc(chk, co, pngwriter)
-    corr_tiles(chk, co, image, graphics, pngwriter)
-    corr_build(chk, co, image, graphics, pngwriter)
-    corr_geom_flash(chk, co, image, graphics)
-    corr_imgdata(chk, co, image, graphics)
+
+    def guarded(f, *args):
+        # an exception escaping from the real code inside a correspondence generator is a difference from the
+        # model (a break), not a failure of the check; the e2e streams below look for the concrete input
+        try:
+            f(chk, co, *args)
+        except Exception as e:
+            chk.breaks.append({'kind': 'correspondence', 'name': f'{f.__name__}: the real code raised {type(e).__name__}',
+                               'detail': traceback.format_exc()[-1500:]})
+
+    guarded(corr_crc, pngwriter)
+    guarded(corr_tiles, image, graphics, pngwriter)
+    guarded(corr_build, image, graphics, pngwriter)
+    guarded(corr_geom_flash, image, graphics)
+    guarded(corr_imgdata, image, graphics)
     files = e2e_single(chk, image, graphics)
     files += e2e_multi(chk, image, graphics)
+    e2e_wide(chk, image, graphics)
     corr_file(chk, co, image, graphics, files)
     model = chk.run_driver('C15', co.ops)
     chk.compare('PngCrc/ZxTile/PngScan models vs skoolkit.pngwriter/image/graphics', co.ops, norm(co.impl), norm(model))
     e2e_geometry(chk, graphics)
+    e2e_overlay(chk, graphics)
     e2e_sna2img(chk, sna2img)
+    e2e_html(chk, htmlmods)
 
 
 def replay(chk, data):
-    pngwriter, image, graphics, sna2img = fresh_import('skoolkit.pngwriter', 'skoolkit.image', 'skoolkit.graphics', 'skoolkit.sna2img')
+    pngwriter, image, graphics, sna2img, *htmlmods = fresh_import('skoolkit.pngwriter', 'skoolkit.image', 'skoolkit.graphics', 'skoolkit.sna2img',
+                                                                 'skoolkit.skoolhtml', 'skoolkit.skoolparser', 'skoolkit.refparser')
     kind = data['kind']
     def tl(tiles):
         return [[(a, list(d), None if m is None else list(m)) for a, d, m in row] for row in tiles]
@@ -847,11 +1587,36 @@ def replay(chk, data):
         for key, desc in fails:
             print(f'  {key}: {desc}')
         return bool(fails)
+    if kind == 'html':
+        case = dict(data['case'])
+        def sp(e):
+            e = dict(e)
+            e['tiles'] = tl(e['tiles'])
+            e['crop'] = tuple(e['crop'])
+            return e
+        if 'expect' in case:
+            case['expect'] = sp(case['expect'])
+        if 'specs' in case:
+            case['specs'] = [sp(e) for e in case['specs']]
+        mem = [0] * 16384 + list(bytes.fromhex(data['mem']))
+        fails = check_html(HtmlEnv(htmlmods, chk.scratch, mem, 'replay'), case)
+        for key, desc in fails:
+            print(f'  {key}: {desc}')
+        return bool(fails)
+    if kind == 'overlay':
+        d = dict(data, bg=tl(data['bg']), fg=tl(data['fg']))
+        msg = check_overlay(graphics, d)
+        if msg:
+            print('  ' + msg)
+        return bool(msg)
     if kind == 'geometry':
         tiles = tl(data['tiles'])
-        udgs = mk_udgs(graphics, tiles)
-        graphics.flip_udgs(udgs, data['flip'])
-        graphics.rotate_udgs(udgs, data['rotate'])
+        udgs = geometry_udgs(graphics, tiles, [(tuple(a), tuple(b)) for a, b in data.get('shared', ())])
+        try:
+            graphics.flip_udgs(udgs, data['flip'])
+            graphics.rotate_udgs(udgs, data['rotate'])
+        except Exception:
+            return True
         return udgs_to_tiles(udgs) != transform(tiles, data['flip'], data['rotate'])
     if kind == 'special':
         masks = {0: image.NoMask(), 1: image.OrAndMask(), 2: image.AndOrMask()}
